@@ -231,6 +231,131 @@ func main() {
 			}
 			extra["before"], extra["after"] = before, after
 			return lib.Sym("done"), extra
+		case "reopen":
+			// a linked worktree wa (with one commit of its own) and a bystander wb; then the admin data of wa is
+			// damaged in some way, wa's directory is opened again and used; every OTHER worktree is observed through git
+			r := porc.New()
+			defer r.Close()
+			mainRepo(r)
+			st := filesystem.NewStorage(osfs.New(filepath.Join(r.Dir, ".git")), cache.NewObjectLRUDefault())
+			defer st.Close()
+			mgr, err := xworktree.New(st)
+			if err != nil {
+				return lib.Err("new"), err.Error()
+			}
+			dirs := map[string]string{"main": r.Dir}
+			for _, n := range []string{"wa", "wb"} {
+				d := filepath.Join(r.Root, n)
+				os.MkdirAll(d, 0o755)
+				if err := mgr.Add(osfs.New(d), n); err != nil {
+					return lib.Err("add"), err.Error()
+				}
+				dirs[n] = d
+			}
+			if ra, err := mgr.Open(osfs.New(dirs["wa"])); err == nil {
+				if wa, err := ra.Worktree(); err == nil {
+					os.WriteFile(filepath.Join(dirs["wa"], "first"), []byte("1\n"), 0o644)
+					wa.Add("first")
+					wa.Commit("first", &git.CommitOptions{Author: sig, Committer: sig})
+				}
+				ra.Close()
+			}
+			admin := filepath.Join(r.Dir, ".git", "worktrees", "wa")
+			extra := map[string]any{}
+			switch c.S("damage") {
+			case "none":
+			case "removed": // worktree.Remove: the admin directory goes, the worktree directory stays
+				if err := mgr.Remove("wa"); err != nil {
+					extra["damage_err"] = err.Error()
+				}
+			case "admin-deleted": // the same by hand (rm -rf .git/worktrees/wa, what `git worktree prune` leaves)
+				os.RemoveAll(admin)
+			case "dotgit-dangling": // .git names an admin directory that never existed
+				os.WriteFile(filepath.Join(dirs["wa"], ".git"), []byte("gitdir: "+filepath.Join(r.Dir, ".git", "worktrees", "nosuch")+"\n"), 0o644)
+			case "dotgit-elsewhere": // .git names a directory outside this repository
+				other := filepath.Join(r.Root, "other", ".git", "worktrees", "wa")
+				os.MkdirAll(other, 0o755)
+				os.WriteFile(filepath.Join(dirs["wa"], ".git"), []byte("gitdir: "+other+"\n"), 0o644)
+			case "dotgit-relative": // a relative pointer, as git itself accepts (and writes with worktree.useRelativePaths)
+				os.WriteFile(filepath.Join(dirs["wa"], ".git"), []byte("gitdir: ../w/.git/worktrees/wa\n"), 0o644)
+			case "dotgit-relative-gone":
+				os.RemoveAll(admin)
+				os.WriteFile(filepath.Join(dirs["wa"], ".git"), []byte("gitdir: ../w/.git/worktrees/wa\n"), 0o644)
+			case "dotgit-crlf": // trailing CR LF and blanks are trimmed
+				os.WriteFile(filepath.Join(dirs["wa"], ".git"), []byte("gitdir: "+admin+" \r\n"), 0o644)
+			case "gitdir-missing":
+				os.Remove(filepath.Join(admin, "gitdir"))
+			case "gitdir-dangling":
+				os.WriteFile(filepath.Join(admin, "gitdir"), []byte(filepath.Join(r.Root, "gone", ".git")+"\n"), 0o644)
+			case "gitdir-elsewhere":
+				os.WriteFile(filepath.Join(admin, "gitdir"), []byte(filepath.Join(dirs["wb"], ".git")+"\n"), 0o644)
+			case "commondir-missing":
+				os.Remove(filepath.Join(admin, "commondir"))
+			case "commondir-dangling":
+				os.WriteFile(filepath.Join(admin, "commondir"), []byte("../../../gone\n"), 0o644)
+			case "commondir-elsewhere":
+				os.WriteFile(filepath.Join(admin, "commondir"), []byte(filepath.Join(r.Root, "other", ".git")+"\n"), 0o644)
+			case "head-missing":
+				os.Remove(filepath.Join(admin, "HEAD"))
+			default:
+				panic("unknown damage")
+			}
+			others := []string{"main", "wb"}
+			before := map[string]any{}
+			for _, n := range others {
+				before[n] = snapshot(r, dirs[n])
+			}
+			opened := "err"
+			ra, err := mgr.Open(osfs.New(dirs["wa"]))
+			if err != nil {
+				extra["open_err"] = err.Error()
+			} else {
+				// which storage is the repository wired to?
+				if fst, ok := ra.Storer.(*filesystem.Storage); ok {
+					root := fst.Filesystem().Root()
+					switch root {
+					case filepath.Join(r.Dir, ".git"):
+						opened = "main"
+					case admin:
+						opened = "dual"
+					default:
+						opened = "other"
+						extra["storage_root"] = norm(root, r)
+					}
+				}
+				if wa, err := ra.Worktree(); err != nil {
+					extra["worktree_err"] = err.Error()
+				} else {
+					for i, step := range c.SL("steps") {
+						var err error
+						switch step {
+						case "commit":
+							fn := "again" + string(rune('0'+i))
+							os.WriteFile(filepath.Join(dirs["wa"], fn), []byte("n\n"), 0o644)
+							if _, err = wa.Add(fn); err == nil {
+								_, err = wa.Commit("c", &git.CommitOptions{Author: sig, Committer: sig})
+							}
+						case "reset":
+							err = wa.Reset(&git.ResetOptions{Mode: git.HardReset})
+						case "add":
+							os.WriteFile(filepath.Join(dirs["wa"], "f"), []byte("changed\n"), 0o644)
+							_, err = wa.Add("f")
+						case "checkout":
+							err = wa.Checkout(&git.CheckoutOptions{Branch: plumbing.NewBranchReferenceName("again"), Create: true, Force: true})
+						}
+						if err != nil {
+							extra["step_err"] = step + ": " + err.Error()
+						}
+					}
+				}
+				ra.Close()
+			}
+			after := map[string]any{}
+			for _, n := range others {
+				after[n] = snapshot(r, dirs[n])
+			}
+			extra["before"], extra["after"] = before, after
+			return lib.Sym(opened), extra
 		}
 		panic("unknown op")
 	}, 8)
